@@ -30,8 +30,36 @@ def e1(run: Run, prog: Program):
     elif isinstance(reg, ast.Call) and ast.unparse(reg.func) == "dict":
         for kw in reg.keywords:
             table[kw.arg] = ast.unparse(kw.value)
+    elif isinstance(reg, ast.DictComp) and len(reg.generators) == 1 and \
+            isinstance(reg.generators[0].target, ast.Name) and \
+            isinstance(reg.key, ast.Name) and \
+            reg.key.id == reg.generators[0].target.id:
+        # {name: getattr(Cls, f"_prefix_{name}") for name in <constant names>}
+        from .idioms import const_seq
+        var = reg.key.id
+        names = const_seq(reg.generators[0].iter, es, prog.classes)
+        if names is None:
+            raise AnalysisError("registry comprehension over a non-constant sequence")
+        for nm in names:
+            v = reg.value
+            bound = None
+            if isinstance(v, ast.Call) and isinstance(v.func, ast.Name) and \
+                    v.func.id == "getattr" and len(v.args) >= 2:
+                a = v.args[1]
+                if isinstance(a, ast.JoinedStr):
+                    bound = "".join(
+                        str(p_.value) if isinstance(p_, ast.Constant) else
+                        (str(nm) if isinstance(p_, ast.FormattedValue) and
+                         isinstance(p_.value, ast.Name) and p_.value.id == var else "?")
+                        for p_ in a.values)
+                elif isinstance(a, ast.BinOp) and isinstance(a.op, ast.Add) and \
+                        isinstance(a.left, ast.Constant) and \
+                        isinstance(a.right, ast.Name) and a.right.id == var:
+                    bound = str(a.left.value) + str(nm)
+            table[nm] = f"{ast.unparse(v.args[0])}.{bound}" if bound else ast.unparse(v)
     else:
-        raise AnalysisError("registry is not a dict literal / dict(...) call")
+        raise AnalysisError("registry is not a dict literal / dict(...) call / "
+                            "comprehension over constant names")
     run.floor("symmetrisation registry entries", len(table), 4)
     # bindings
     for k, v in sorted(table.items()):
@@ -49,10 +77,11 @@ def e1(run: Run, prog: Program):
         for st in ast.walk(f.node):
             if isinstance(st, ast.If) and isinstance(st.test, ast.Compare) and \
                     isinstance(st.test.ops[0], ast.NotIn) and \
-                    ast.unparse(st.test.left) == "symmetrization" and \
-                    isinstance(st.test.comparators[0], (ast.List, ast.Tuple)):
-                vals = [v.value for v in st.test.comparators[0].elts
-                        if isinstance(v, ast.Constant)]
+                    ast.unparse(st.test.left) == "symmetrization":
+                from .idioms import const_seq
+                vals = const_seq(st.test.comparators[0], es, prog.classes)
+                if vals is None:
+                    continue
                 accepted.setdefault(f.qualname, []).append((st.lineno, vals))
     nlists = sum(len(v) for v in accepted.values())
     run.floor("symmetrisation validation lists", nlists, 4)
